@@ -1063,6 +1063,10 @@ struct Driver {
       for (const Stmt& s : w.sc.stmts) if (s.alive && !s.phony && !s.regen) cands.push_back(s.id);
       if (cands.empty()) mode = 0;
       else { p.tool.push_back("-r"); rules.push_back(cands[H((uint32_t)cands.size())]); p.tool.push_back("r" + std::to_string(rules[0])); }
+      // `phony` is a rule name like any other on the command line; nothing an alias names is ninja's to delete
+      bool any_alias = false;
+      for (const Stmt& s : w.sc.stmts) if (s.alive && s.phony) any_alias = true;
+      if (mode == 3 && any_alias && H(3) == 0) { rules.clear(); p.tool.back() = "phony"; rr.stats.n["clean_rule_phony"]++; }
     }
     std::string desc = "clean";
     for (auto& t : p.tool) desc += " " + t;
@@ -1078,9 +1082,15 @@ struct Driver {
     std::set<std::string> scope, generator_outs, phony_names;
     for (const Stmt& s : w.sc.stmts) {
       if (!s.alive) continue;
-      if (s.phony) { for (auto& o : s.outs) phony_names.insert(o); continue; }
+      if (s.phony) { for (auto& o : s.outs) phony_names.insert(o); for (auto& o : s.imp_outs) phony_names.insert(o); continue; }
       if (s.generator) { std::set<std::string> g; AddEdgeFiles(w.sc, s, dd_loaded(s), &g); generator_outs.insert(g.begin(), g.end()); }
     }
+    // sometimes a file of the user's happens to carry an alias' name while the tool runs
+    // (`build tags: phony`, and a file called tags): it is theirs
+    std::vector<std::string> planted;
+    if (!phony_names.empty() && H(3) == 0)
+      for (auto& nm : phony_names) if (!w.k.Exists(nm) && planted.size() < 2) { w.k.WriteFile(nm, "the user's own\n", true); planted.push_back(nm); }
+    if (!planted.empty()) Note("  (files named like aliases exist: " + std::to_string(planted.size()) + ")");
     if (mode == 0 || mode == 1 || mode == 4) {
       for (const Stmt& s : w.sc.stmts) {
         if (!s.alive || s.phony) continue;
@@ -1108,6 +1118,7 @@ struct Driver {
     InvRecord r = w.RunInvocation(p);
     Note(ResultText(r));
     if (getenv("SIM_SHOW_OUTPUT")) Note("  stdout: " + r.res.out.substr(0, 2000) + "\n  stderr: " + r.res.err);
+    for (auto& nm : planted) w.k.Remove(nm);
     w.CheckTermination(r);
     if (r.res.end != ProcResult::kExit) return;
     if (!r.spawns.empty()) w.Report("C18", "clean_out_of_scope", "ninja -t clean started build commands");
